@@ -52,6 +52,20 @@ def length_at(st, i):
     return b2f(st[1][i]) if 0 <= i < len(st[1]) else None
 
 
+def eff_setting(g):
+    """The box a group's results must obey: a group evaluated through the cuboid class under a hypercubic setting
+    (via == "cuboid") is a cuboid with `dimension` equal lengths."""
+    st = g["setting"]
+    if g.get("via") == "cuboid" and st[0] == "cubic":
+        return ["cuboid", [int(st[2])] * int(st[1])]
+    return st
+
+
+def set_eff(groups):
+    for g in groups:
+        g["eff"] = eff_setting(g)
+
+
 def setting_term(st):
     if st[0] == "cubic":
         return "(SCubic %d%%nat %d)" % (int(st[1]), int(st[2]))
@@ -238,7 +252,12 @@ def gen_group(rng, stats):
             ops += entry_deps(st, op) + [op]
     g = {"setting": st, "ops": ops}
     if twin:
-        return [g, {"setting": ["cubic", dim, st[1][0]], "ops": [list(o) for o in ops], "twin": -1}]
+        cub = ["cubic", dim, st[1][0]]
+        return [g, {"setting": cub, "ops": [list(o) for o in ops], "twin": -1},
+                {"setting": cub, "via": "cuboid", "ops": [list(o) for o in ops], "twin": -2}]
+    if cubic and rng.random() < 0.7:
+        # the cuboid class is usable under a hypercubic setting: same ops through HypercuboidPeriodicBoundaries
+        return [g, {"setting": st, "via": "cuboid", "ops": [list(o) for o in ops], "twin": -1}]
     return [g]
 
 
@@ -249,8 +268,8 @@ def gen_groups(ctx, n):
     total = 0
     while total < n:
         gs = gen_group(rng, stats)
-        if len(gs) == 2:
-            gs[1]["twin"] = len(groups)       # absolute index of the cuboid group, fixed up by the caller's offset
+        for h in gs[1:]:
+            h["twin"] = len(groups)           # absolute index of the first group, fixed up by the caller's offset
         for g in gs:
             total += len(g["ops"])
         groups += gs
@@ -262,12 +281,16 @@ def gen_groups(ctx, n):
 def run_impl(ctx, groups):
     """Run all groups through the driver; returns per group (results, init, stored)."""
     chunks, cur, cnt = [], [], 0
-    for g in groups:
-        cur.append({"setting": g["setting"], "ops": g["ops"]})
+    start = 0
+    for gi, g in enumerate(groups):
+        cur.append({"setting": g["setting"], "ops": g["ops"], "via": g.get("via", "own"),
+                    "history": g.get("history") or []})
+        g["_chunk_start"] = start
         cnt += len(g["ops"])
         if cnt >= CHUNK_OPS:
             chunks.append(cur)
             cur, cnt = [], 0
+            start = gi + 1
     if cur:
         chunks.append(cur)
     outs = C.run_driver_parallel(ctx, "c15_periodic", [{"groups": ch} for ch in chunks])
@@ -369,7 +392,7 @@ def expected_exc(st, op):
 
 def oracle_group(g, res, init, stored):
     """Returns list of (op index, message)."""
-    st = g["setting"]
+    st = g.get("eff") or eff_setting(g)
     ops = g["ops"]
     lengths = setting_lengths(st)
     fails = []
@@ -462,6 +485,78 @@ def oracle_group(g, res, init, stored):
     return fails
 
 
+def twin_fails(groups, res, init):
+    """(e) the same ops through the other class / the other setting kind with equal lengths: bit-identical."""
+    fails, ntwin = [], 0
+    for gi, g in enumerate(groups):
+        t = g.get("twin")
+        if t is None:
+            continue
+        h = groups[t]
+        if setting_lengths(g["eff"]) != setting_lengths(h["eff"]) and not any(
+                math.isnan(x) for x in setting_lengths(g["eff"])):
+            continue
+        if init[gi] != "ok" or init[t] != "ok":
+            if (init[gi] == "ok") != (init[t] == "ok"):
+                fails.append((gi, 0, "cubic and cuboid settings differ in accepting the lengths", None, init[gi]))
+            continue
+        for j, (op, ra, rb) in enumerate(zip(g["ops"], res[gi], res[t])):
+            if op != h["ops"][j]:
+                break
+            if expected_exc(g["eff"], op) or expected_exc(h["eff"], op):
+                continue
+            ntwin += 1
+            ca = ra if is_exc(ra) else [canon(b) for b in ra]
+            cb = rb if is_exc(rb) else [canon(b) for b in rb]
+            if ca != cb:
+                fails.append((gi, j, "cubic and cuboid periodic boundaries differ for equal lengths "
+                                     "(%s via %s vs %s via %s): %r vs %r"
+                              % (g["setting"][0], g.get("via", "own"), h["setting"][0], h.get("via", "own"), ra, rb),
+                              "twin", ra))
+    return fails, ntwin
+
+
+def oracle_all(groups, res, init, stored):
+    """Group oracle + twin comparison (used by the run and by the shrinker)."""
+    fails = []
+    for gi, g in enumerate(groups):
+        for j, m in oracle_group(g, res[gi], init[gi], stored[gi]):
+            fails.append((gi, j, m, None, res[gi][j]))
+    tf, ntwin = twin_fails(groups, res, init)
+    return fails + tf, ntwin
+
+
+def history_of(groups, gi):
+    """Settings initialised earlier in the same driver process (explicit history first), without immediate repeats."""
+    g = groups[gi]
+    hist = []
+    for h in groups[g.get("_chunk_start", 0):gi]:
+        hist += list(h.get("history") or []) + [h["setting"]]
+    hist = list(g.get("history") or []) if not hist else hist + list(g.get("history") or [])
+    out = []
+    for st in hist:
+        if not out or out[-1] != st:
+            out.append(st)
+    return out
+
+
+def shrink_history(ctx, rg_of, hist):
+    """Shortest suffix of the history with which the replay groups still fail the oracle (fresh process each)."""
+    for n in [0, 1, 2, 3, 4, 8, 16, 32, 64]:
+        if n >= len(hist):
+            break
+        rg = rg_of(hist[len(hist) - n:] if n else [])
+        try:
+            set_eff(rg)
+            r, i, s_ = run_impl(ctx, rg)
+            f, _ = oracle_all(rg, r, i, s_)
+        except Exception:  # noqa
+            f = []
+        if f:
+            return hist[len(hist) - n:] if n else []
+    return hist
+
+
 def needed_ops(st, op):
     return entry_deps(st, op) + [op]
 
@@ -487,6 +582,7 @@ def run(ctx, groups_override=None):
         if t is not None and not (0 <= t < len(groups) and t != gi and
                                   len(groups[t]["ops"]) == len(g["ops"])):
             g["twin"] = None
+    set_eff(groups)
     # round 1
     res, init, stored = run_impl(ctx, groups)
     # round 2: idempotence of the wrap — feed every corrected position back through the implementation
@@ -500,8 +596,9 @@ def run(ctx, groups_override=None):
                 ops2.append(["pos_entry", canon(r[0]), op[2]])
                 idx.append(j)
         if ops2:
-            groups2.append({"setting": g["setting"], "ops": ops2})
+            groups2.append({"setting": g["setting"], "via": g.get("via", "own"), "ops": ops2})
             back.append((gi, idx))
+    set_eff(groups2)
     res2, init2, _ = run_impl(ctx, groups2) if groups2 else ([], [], [])
 
     # correspondence: model vs implementation, bit-exact, evaluated in Coq
@@ -512,7 +609,7 @@ def run(ctx, groups_override=None):
         for j, (op, r) in enumerate(zip(g["ops"], res[gi])):
             if is_exc(r) and r[0] == "ERR":
                 continue
-            t = case_term(g["setting"], op, r)
+            t = case_term(g["eff"], op, r)
             if t is not None:
                 terms.append(t)
                 idxmap.append((gi, j, op, r))
@@ -522,7 +619,7 @@ def run(ctx, groups_override=None):
         for op, r, j in zip(g2["ops"], r2, idx):
             if is_exc(r) and r[0] == "ERR":
                 continue
-            terms.append(case_term(g2["setting"], op, r))
+            terms.append(case_term(g2["eff"], op, r))
             idxmap.append((gi, j, op, r))
     neval, bad, nfiles, nok, err = C.eval_cases(ctx, "c15", HEADER, terms, "check_pcase", "pcase", per_file=PER_FILE)
     if err:
@@ -536,7 +633,7 @@ def run(ctx, groups_override=None):
             fails.append((gi, j, m, None, res[gi][j]))
     for g2, r2, i2, (gi, idx) in zip(groups2, res2, init2, back):       # (a) idempotence
         for op, r, j in zip(g2["ops"], r2, idx):
-            L = length_at(g2["setting"], int(op[2]))
+            L = length_at(g2["eff"], int(op[2]))
             x = b2f(groups[gi]["ops"][j][1])
             if L is None or not (valid_len(L) and math.isfinite(x)):
                 continue
@@ -544,38 +641,21 @@ def run(ctx, groups_override=None):
                 fails.append((gi, j, "correct_position_entry is not idempotent: corrected value %s is mapped to %r"
                               % (hexf(op[1]), r if is_exc(r) or i2 != "ok" else hexf(r[0])),
                               [groups[gi]["ops"][j]], res[gi][j]))
-    ntwin = 0
-    for gi, g in enumerate(groups):                                       # (e) cubic == cuboid
-        t = g.get("twin")
-        if t is None:
-            continue
-        h = groups[t]
-        if setting_lengths(g["setting"]) != setting_lengths(h["setting"]) and not any(
-                math.isnan(x) for x in setting_lengths(g["setting"])):
-            continue
-        if init[gi] != "ok" or init[t] != "ok":
-            if (init[gi] == "ok") != (init[t] == "ok"):
-                fails.append((gi, 0, "cubic and cuboid settings differ in accepting the lengths", None, init[gi]))
-            continue
-        for j, (op, ra, rb) in enumerate(zip(g["ops"], res[gi], res[t])):
-            if op != h["ops"][j]:
-                break
-            if expected_exc(g["setting"], op) or expected_exc(h["setting"], op):
-                continue
-            ntwin += 1
-            ca = ra if is_exc(ra) else [canon(b) for b in ra]
-            cb = rb if is_exc(rb) else [canon(b) for b in rb]
-            if ca != cb:
-                fails.append((gi, j, "cubic and cuboid periodic boundaries differ for equal lengths: %r vs %r"
-                              % (ra, rb), "twin", ra))
+    tf, ntwin = twin_fails(groups, res, init)                             # (e) cubic == cuboid
+    fails += tf
 
     # statistics
     kinds, nonfinite, raw_eq_L, sep_raw_eq_L, extreme, nexc, ncomp = {}, 0, 0, 0, 0, 0, 0
     distinct = set()
     settings = {"cubic": 0, "cuboid": 0, "dim1": 0, "dim2": 0, "dim3": 0, "init_refused": 0, "twin_pairs": 0}
     for gi, g in enumerate(groups):
-        st = g["setting"]
+        st = g["eff"]
         settings[st[0]] += 1
+        if g.get("via") == "cuboid":
+            settings["cuboid_class_under_cubic_setting"] = settings.get("cuboid_class_under_cubic_setting", 0) + 1
+        if gi > g.get("_chunk_start", 0):
+            tr = "%s->%s" % (groups[gi - 1]["setting"][0], g["setting"][0])
+            settings["transition " + tr] = settings.get("transition " + tr, 0) + 1
         settings["dim%d" % setting_dim(st)] = settings.get("dim%d" % setting_dim(st), 0) + 1
         if init[gi] != "ok":
             settings["init_refused"] += 1
@@ -614,6 +694,12 @@ def run(ctx, groups_override=None):
                     if math.isfinite(t) and t % L == L:
                         sep_raw_eq_L += 1
 
+    def mk(gg, ops, hist, extra=None):
+        d = {"setting": gg["setting"], "via": gg.get("via", "own"), "history": hist, "ops": ops}
+        if extra:
+            d.update(extra)
+        return d
+
     if fails:
         gi, j, m, keep, ir = fails[0]
         g = groups[gi]
@@ -621,26 +707,42 @@ def run(ctx, groups_override=None):
         if op is None:
             ops_keep = []
         elif keep in (None, "twin"):
-            ops_keep = needed_ops(g["setting"], op)
+            ops_keep = needed_ops(g["eff"], op)
         else:
             ops_keep = keep
-        if keep == "twin":      # g is the cubic twin of the cuboid group groups[g["twin"]]
-            rg = [{"setting": groups[g["twin"]]["setting"], "ops": ops_keep},
-                  {"setting": g["setting"], "ops": [list(o) for o in ops_keep], "twin": 0}]
+        if keep == "twin":      # g is the twin of groups[g["twin"]] (same ops, other class / setting kind)
+            first = groups[g["twin"]]
+
+            def rg_of(hist):
+                return [mk(first, [list(o) for o in ops_keep], hist),
+                        mk(g, [list(o) for o in ops_keep], hist, {"twin": 0})]
         else:
-            rg = [{"setting": g["setting"], "ops": ops_keep}]
-        C.violation(ctx, "oracle", {"kind": "c15-groups", "groups": rg,
-                                    "failing": describe(g["setting"], op) if op is not None else None,
+            def rg_of(hist):
+                return [mk(g, [list(o) for o in ops_keep], hist)]
+        if groups_override is None:
+            full = history_of(groups, gi)
+            hist = shrink_history(ctx, rg_of, full)
+        else:
+            full = hist = list(g.get("history") or [])
+        C.violation(ctx, "oracle", {"kind": "c15-groups", "groups": rg_of(hist),
+                                    "failing": dict(describe(g["eff"], op), via=g.get("via", "own"))
+                                    if op is not None else None,
+                                    "history_of_initialisations_in_the_process": {
+                                        "kept": len(hist), "original": len(full),
+                                        "note": "settings initialised, used once and reset earlier in the same "
+                                                "process, oldest first; shrunk to the shortest failing suffix"},
                                     "impl_result": ir if is_exc(ir) or not isinstance(ir, list)
                                     else [hexf(b) for b in ir],
                                     "message": m, "n_failing": len(fails)},
                     "C15 fails on the implementation: " + m)
     elif mism:
         gi, j, op, r = mism[0]
+        hist = history_of(groups, gi) if groups_override is None else list(groups[gi].get("history") or [])
         C.violation(ctx, "correspondence", {"kind": "c15-groups",
-                                            "groups": [{"setting": groups[gi]["setting"],
-                                                        "ops": needed_ops(groups[gi]["setting"], groups[gi]["ops"][j])}],
-                                            "failing": describe(groups[gi]["setting"], op),
+                                            "groups": [mk(groups[gi], needed_ops(groups[gi]["eff"],
+                                                                                 groups[gi]["ops"][j]), hist)],
+                                            "failing": dict(describe(groups[gi]["eff"], op),
+                                                            via=groups[gi].get("via", "own")),
                                             "impl_result": r if is_exc(r) else [hexf(b) for b in r],
                                             "message": "model/implementation disagree bit-wise (%d cases); the "
                                             "exact-arithmetic oracle found no failing input; correspondence "
@@ -649,7 +751,7 @@ def run(ctx, groups_override=None):
     elif broken:
         C.violation(ctx, "obligation", {"kind": "obligation", "broken": broken}, broken[0][:200], nofail=True)
 
-    allcases = [(groups[gi]["setting"], op, res[gi][j]) for gi in range(len(groups))
+    allcases = [(groups[gi]["eff"], op, res[gi][j]) for gi in range(len(groups))
                 for j, op in enumerate(groups[gi]["ops"])]
     nall = len(allcases)
     dist = dict(kinds)
@@ -678,7 +780,10 @@ def run(ctx, groups_override=None):
         "case_files": nfiles, "case_files_ok": nok,
         "explanation": "Props/C15.v re-checked (%d theorems); bit-exact correspondence of Model/Periodic.v with "
                        "jellyfysh.setting.{hypercubic,hypercuboid}_setting periodic boundaries (reached through "
-                       "setting.periodic_boundaries) evaluated in Coq on every op incl. the idempotence round; "
+                       "setting.periodic_boundaries, and the cuboid class also under hypercubic settings) evaluated in "
+                       "Coq on every op incl. the idempotence round; every driver process re-initialises the setting "
+                       "package many times (cuboid/cubic, other lengths, other dimension) and results must obey the "
+                       "CURRENT box; "
                        "exact-rational oracle on the implementation: range [0,L), congruence, idempotence, |sep| <= L/2, "
                        "vector == entry-wise, next_image, cubic == cuboid" % nthm,
         "trusted_base": TRUSTED,
@@ -695,6 +800,9 @@ ASSUME = [
     "system lengths are finite and > 0 (the setting classes refuse lengths <= 0; inf/NaN lengths are outside the property)",
     "position and separation entries are finite floats; separation congruence is claimed for |s| + L <= 2^1023",
     "vectors have the setting's dimension (longer vectors raise IndexError in the cuboid class)",
+    "the history of setting (re-)initialisations within one process is an input: ~100 initialisations per driver "
+    "process in generated order (transition counts in input_distribution.settings); the application itself "
+    "initialises one setting per process",
 ]
 
 
